@@ -4,6 +4,7 @@ From Coq Require Import List NArith.
 From YV Require Import Base.Wire Model.CodedCpp Proofs.CodedCppIn Proofs.Truncation Model.CodedPy Proofs.CodedPyIn.
 From YV Require Import Model.Binary Model.CppLayout Model.CppTyped Proofs.CppTypedProofs Model.CppReadProg Model.CppTypedRead
   Model.PyTyped Model.PyReadProg Model.PyTypedRead Proofs.TypedTruncation.
+From YV Require Import Model.Json Proofs.JsonTruncation.
 Import ListNotations.
 
 (* The buffered C++ reader of coded_stream.h returns, for EVERY buffer size, input and script,
@@ -90,6 +91,28 @@ Print Assumptions C16_cpp_typed_truncated.
 (* the constants of the model (varint byte budgets, magic bytes, format version, nesting limit, default
    buffer size >= 10) are those of the current sources (Gen/Tables.v is regenerated from /repo on every run) *)
 From YV Require Import Proofs.GenTie.
+(* NDJSON has no end marker, so the tail of trailing streams can be lost unnoticed; but every step that is not a stream has exactly
+   one line, and when the lines kept after a cut contain none of its name the line reader cannot complete, whatever else is there
+   (tie: `ndjson_cuts` of the C16 check cuts real NDJSON streams at every line boundary and gives them to the generated Python reader) *)
+Theorem C16_ndjson_lost_value_step_refused : forall p ws kept dropped name t,
+  write_lines p ws = kept ++ dropped -> In (name, false, t) p -> ~ In name (map fst kept) ->
+  read_lines p (None, kept) = None.
+Proof. exact cut_losing_a_value_step_is_refused. Qed.
+Print Assumptions C16_ndjson_lost_value_step_refused.
+
+Example C16_ndjson_hyp_sat :
+  let p := [([104], false, JTPrim PInt32); ([115], true, JTPrim PInt32); ([99], false, JTOpt (JTPrim PString))] in
+  let ws := [JWVal (VInt 5); JWItems [VInt 1; VInt 2]; JWVal VNone] in
+  write_lines p ws = firstn 3 (write_lines p ws) ++ skipn 3 (write_lines p ws)
+  /\ ~ In [99] (map fst (firstn 3 (write_lines p ws)))
+  /\ read_lines p (None, firstn 3 (write_lines p ws)) = None
+  /\ exists st, read_lines p (None, write_lines p ws) = Some (ws, st).
+Proof.
+  cbv zeta. split; [symmetry; apply firstn_skipn|]. split; [vm_compute; intros [H|[H|[H|[]]]]; discriminate|].
+  split; [vm_compute; reflexivity|]. eexists. vm_compute. reflexivity.
+Qed.
+Print Assumptions C16_ndjson_hyp_sat.
+
 Theorem C16_constants_are_the_sources : constants_statement.
 Proof. exact constants_agree. Qed.
 Print Assumptions C16_constants_are_the_sources.
